@@ -7,7 +7,7 @@ import re
 from .. import calg
 from ..pymodel import package
 from ..ratemodel import model as ratemodel, SELF
-from ..valueflow import Flow, as_map, lower, match, V, show, simp, walk
+from ..valueflow import Flow, acc_as_comp, as_map, lower, match, V, show, simp, walk
 from .c05 import REF, arms_for, variant_text, COEFF
 from .c10 import tables, grain_methods, GRAIN_CLASSES, delegated_types
 from .c11 import name_hole
@@ -181,6 +181,9 @@ def _r1_r2(ctx, w, r):
         stripped = False
         if f is not None:
             v = simp(f.value)
+            if v[0] == "acc":
+                # the list was built by an explicit append loop: the comprehension it is equal to
+                v = acc_as_comp(r["flow"], v[1]) or v
             m = as_map(v) if v[0] == "comp" else None
             if m:
                 bv, body, base, ifs = m
@@ -472,6 +475,11 @@ def _r6(ctx, pkg):
         found = ""
         if vals:
             v = simp(vals[-1][0])
+            if v[0] == "copy":
+                v = v[1]
+            if v[0] == "acc":
+                # the table was filled by a loop of element stores: the dict comprehension it is equal to
+                v = acc_as_comp(fl, v[1]) or v
             found = show(v)[:120]
             if v[0] == "comp" and v[1] == "dict" and len(v[3]) == 1:
                 tg, it, ifs = v[3][0]
